@@ -562,3 +562,30 @@ MODULAR['GENERIC'] = {
 }
 
 DEFAULT['payload_of'] = twin_payload_of
+
+from . import terminal as _terminal  # noqa: E402
+DEFAULT.update(_terminal.TWINS)
+
+
+def summ_setting_valid(interp, func, args, kwargs):
+    """Contract K1 (group K1): AnsiSetting.valid is True exactly when no character of the text is in 0x40-0x7E.
+    Decided directly on ropes made of literals, str(int) atoms and single characters."""
+    self_ = args[0]
+    t = self_.attrs.get('_str')
+    if isinstance(t, str) or not sym.is_str(t):
+        return NotImplemented
+    conds = []
+    for a in sym.atoms_of(t):
+        if a[0] == 'lit':
+            if any(0x40 <= ord(ch) <= 0x7e for ch in a[1]):
+                return False
+        elif a[0] == 'istr':
+            continue
+        elif a[0] == 'chr':
+            conds.append(sym.b_or(sym.i_cmp('<', a[1], 0x40), sym.i_cmp('>', a[1], 0x7e)))
+        else:
+            return NotImplemented
+    return sym.b_and(*conds)
+
+
+MODULAR['K1'] = {'AnsiSetting.valid': summ_setting_valid}
